@@ -1,4 +1,5 @@
 import Clikit.Lemmas.Section
+import Clikit.Lemmas.SectionIndent
 import Clikit.Gen.C15
 /-!
 # C15 - section outputs keep the screen equal to the stacked section contents
@@ -219,7 +220,93 @@ theorem clearN_beyond_reachable (w : Nat) (hw : 1 ≤ w) (ops : List Op) (newer 
       (clearSec w newer s n).2 = (clearSec w newer s 0).2) :=
   clearN_beyond w hw newer s n hn ((screen_refines w hw ops []).2.2 s hs)
 
+/-! ## sections with indentation
+
+`Model/SectionIndent.lean`: a section inherits the indentation of its output at creation and can change
+it later; the recorded lines carry the indentation, an empty line is printed without it. -/
+
+/-- **An indented history is the base history on the indented lines.**  The sections (contents and row
+counters) and the stream of any history with indentation are those of the base model after `flat` of it:
+every written non-empty line behind the blanks of the section's indentation at that moment, an empty line
+as it is. -/
+theorem indent_simulates (ansi : Bool) (w : Nat) (iops : List IOp) :
+    (runI ansi w { secs := [], ind := [] } iops).1.secs = (run ansi w [] (flat [] iops)).1 ∧
+    (runI ansi w { secs := [], ind := [] } iops).2 = (run ansi w [] (flat [] iops)).2 :=
+  runI_sim ansi w iops { secs := [], ind := [] }
+
+/-- **The screen shows the stacked (indented) contents.**  `screen_refines` for EVERY history over sections
+with indentation - inherited at creation, changed in the middle, smaller or larger than the width, empty
+lines included -: the screen is `above` followed by the contents of all sections in creation order (a
+redrawn section is NOT indented again: it shows what it holds), the cursor is below, the row counters are
+exact. -/
+theorem screen_refines_indented (w : Nat) (hw : 1 ≤ w) (iops : List IOp) (above : List Str) :
+    let r := runI true w { secs := [], ind := [] } iops
+    let scr := execs w { rows := above, cur := above.length } r.2
+    scr.rows = above ++ stacked w r.1.secs ∧
+    scr.cur = scr.rows.length ∧
+    ∀ s ∈ r.1.secs, s.rows = (linesRows w s.content).length := by
+  have h := indent_simulates true w iops
+  simp only [h.1, h.2]
+  exact screen_refines w hw (flat [] iops) above
+
+/-- The contents of indented sections are what the operations ask for: the written lines behind the
+indentation the section had when they were written. -/
+theorem contents_spec_indented (w : Nat) (iops : List IOp) :
+    (runI true w { secs := [], ind := [] } iops).1.secs.reverse.map (·.content)
+      = (flat [] iops).foldl specStep [] := by
+  rw [(indent_simulates true w iops).1]
+  exact contents_spec w (flat [] iops)
+
+/-- A history without any indentation is the base history: all theorems above speak about what the
+driver computes for it. -/
+theorem indent_free_is_base (ansi : Bool) (w : Nat) (ops : List Op) : ∀ (secs : List Sec),
+    (runI ansi w { secs := secs, ind := [] } (ops.map .op)).1.secs = (run ansi w secs ops).1 ∧
+    (runI ansi w { secs := secs, ind := [] } (ops.map .op)).2 = (run ansi w secs ops).2 := by
+  induction ops with
+  | nil => intro secs; exact ⟨rfl, rfl⟩
+  | cons o r ih =>
+    intro secs
+    have h0 : indOf [] (target o) = 0 := by simp [indOf]
+    have hstep : stepI ansi w secs 0 o = step ansi w secs o := by
+      rw [stepI_eq ansi w secs 0 o, step_padOp_zero]
+    simp only [List.map_cons, runI, stepIO, run, h0, hstep]
+    exact ⟨(ih _).1, by rw [(ih _).2]⟩
+
 /-! ## non-vacuity -/
+
+/-- Width 10: the older section has indentation 2 (inherited), the newer none; a write to the older
+one prints its line behind two blanks and re-prints the newer section as it is - NOT indented again. -/
+private def demoI : List IOp :=
+  [.create 2, .create 0, .op (.write 1 ["qrs".toList]), .op (.write 0 ["lmn".toList]),
+   .indent 1 3, .op (.write 1 ["x".toList])]
+
+example : (runI true 10 { secs := [], ind := [] } demoI).2 =
+    [.print "qrs".toList, .up 1, .eraseBelow, .print "  lmn".toList, .print "qrs".toList,
+     .print "   x".toList] := by decide
+
+example : flat [] demoI = [.create, .create, .write 1 ["qrs".toList], .write 0 ["  lmn".toList],
+                     .write 1 ["   x".toList]] := by decide
+
+example := screen_refines_indented 10 (by decide) demoI []
+
+/-- an empty line at a positive indentation is recorded and printed empty, one row -/
+example : (runI true 10 { secs := [], ind := [] } [.create 2, .op (.write 0 [[]])]) =
+      ({ secs := [{ content := [[]], rows := 1 }], ind := [2] }, [.print []]) := by decide
+
+/-- **D38 as it was before the repair** (`writeSecPadAll`: an empty line recorded behind the blanks).
+Width 3; the older section shows `A1`, `A2`; the newer one, indentation 4, writes an empty line: ONE empty
+row on the screen, but `"    "` recorded and TWO rows counted.  The next write on the older section moves
+up two rows and erases `A2`.  With the rule as it is now the screen shows all three lines. -/
+example :
+    let A1 := "A1".toList; let A2 := "A2".toList; let A3 := "A3".toList
+    let a : Sec := { content := [A1, A2], rows := 2 }
+    let scr : Screen := { rows := [A1, A2], cur := 2 }
+    let old := writeSecPadAll 3 [] { content := [], rows := 0 } 4 [[]]
+    let new := writeSecI 3 [] { content := [], rows := 0 } 4 [[]]
+    old.1 = { content := ["    ".toList], rows := 2 } ∧ old.2 = [.print []] ∧
+    (execs 3 scr (old.2 ++ (writeSec 3 [old.1] a [A3]).2)).rows = [A1, A3, "   ".toList, " ".toList] ∧
+    new.1 = { content := [[]], rows := 1 } ∧
+    (execs 3 scr (new.2 ++ (writeSec 3 [new.1] a [A3]).2)).rows = [A1, A2, A3, []] := by decide
 
 private def a7 : Str := "aaaaaaa".toList
 private def b3 : Str := "bbb".toList
